@@ -1,3 +1,6 @@
+import Varint.Lemmas.PFOR
+import Varint.Lemmas.RLEH
+import Varint.Lemmas.Group
 import Varint.Lemmas.FOR
 import Varint.Lemmas.RLE
 /-
@@ -69,5 +72,37 @@ theorem rle_meta_true (xs : List Nat) :
     RLE.expand (RLE.runs xs) = xs ∧ RLE.total (RLE.runs xs) = xs.length ∧
     (∀ r ∈ RLE.runs xs, 1 ≤ r.1) ∧ RLE.size xs = (RLE.enc xs).length :=
   ⟨RLE.expand_runs xs, RLE.total_runs xs, RLE.runs_pos xs, (RLE.enc_length xs).symm⟩
+
+
+/-- group: the self-measured size and per-field widths read from an encoding are the real ones -/
+theorem group_accessors_true (xs : List Nat) (h : Group.Ok xs) (rest : List Nat) :
+    Group.getSize (Group.enc xs ++ rest) = some (Group.enc xs).length ∧
+    ∀ i, i < xs.length → Group.getFieldWidth (Group.enc xs ++ rest) i = some (Group.normW (xs.getD i 0)) :=
+  ⟨Group.getSize_enc xs h rest, fun i hi => Group.getFieldWidth_enc xs h i hi rest⟩
+
+/-- RLE: the run count is the number of MAXIMAL runs (neighbouring runs differ), 0 only for the empty
+    array, never more than the element count; the runs are the only such decomposition -/
+theorem rle_runs_maximal (xs : List Nat) :
+    RLE.runCount xs = (RLE.runs xs).length ∧ RLE.AdjNe (RLE.runs xs) ∧
+    (RLE.runCount xs = 0 ↔ xs = []) ∧ RLE.runCount xs ≤ xs.length :=
+  ⟨RLE.runCount_eq xs, RLE.runs_adjNe xs, RLE.runCount_eq_zero xs, RLE.runCount_le xs⟩
+
+
+/-- PFOR: the metadata of the analysis are the real properties of the data and of the bytes -/
+theorem pfor_meta_true (xs : List Nat) (g : PFOR.Good xs) (t : Nat) :
+    PFOR.Facts (PFOR.compute xs t) xs ∧
+    (PFOR.compute xs t).exceptionCount = (PFOR.excList (PFOR.compute xs t).thresholdValue 0 xs).length ∧
+    PFOR.excs (PFOR.compute xs t) 0 xs =
+      (PFOR.excList (PFOR.compute xs t).thresholdValue 0 xs).flatMap (fun p => Tagged.enc p.1 ++ Tagged.enc p.2) :=
+  ⟨PFOR.compute_facts xs g t, PFOR.exceptionCount_eq_records xs t⟩
+
+/-- PFOR: the header fields read back from an encoding are min, count and exception count -/
+theorem pfor_header_true (xs : List Nat) (g : PFOR.Good xs) (t : Nat) (rest : List Nat) :
+    Tagged.get (PFOR.enc xs t ++ rest) = .ok (PFOR.compute xs t).min (Tagged.len (PFOR.compute xs t).min) ∧
+    Tagged.get ((PFOR.enc xs t ++ rest).drop (Tagged.len (PFOR.compute xs t).min + 1)) = .ok xs.length (Tagged.len xs.length) ∧
+    Tagged.get ((PFOR.enc xs t ++ rest).drop (Tagged.len (PFOR.compute xs t).min + 1 + Tagged.len xs.length +
+        xs.length * (PFOR.compute xs t).width)) =
+      .ok (PFOR.compute xs t).exceptionCount (Tagged.len (PFOR.compute xs t).exceptionCount) :=
+  ⟨PFOR.hdr_min xs g t rest, PFOR.hdr_count xs g t rest, PFOR.hdr_exceptionCount xs g t rest⟩
 
 end Varint.Props.C16
